@@ -10,7 +10,8 @@ import GV.Lib.PipeTrace
     * accepted blocks carry the sequence numbers 0,1,2,.. without gaps;
     * if the scenario settled without Stop: ApplyFunc saw exactly the good accepted blocks and
       Results() delivered every accepted block exactly once;
-    * Stop returned and no goroutine is left in pipeline code (`leak:0`).
+    * Stop returned — also while the errors / results stream is full and unread — and no
+      goroutine is left in pipeline code (`leak:0`).
 -/
 namespace GV.Drv.C42
 open GV.Line GV.PipeTrace GV.Model.Pipeline
@@ -39,6 +40,7 @@ def monitor (c : Cfg) (toks : List Tok) : Option String :=
   else if hasDup rrSeqs then some s!"block-twice-on-results:{natList rrSeqs}"
   else if !(rrSeqs.all fun q => accSeqs.contains q) then some "result-for-a-block-never-accepted"
   else if sortNat accSeqs != List.range accSeqs.length then some s!"sequence-numbers-not-dense:{natList accSeqs}"
+  else if hasMark toks "stop_hung" then some "Stop-blocked-while-a-stream-was-unread"
   else if hasMark toks "unsettled" then some "pipeline-stalled"
   else if hasMark toks "settled" && appSeqs != okSeqs then
     some s!"settled-but-applied:{natList appSeqs}-expected:{natList okSeqs}"
